@@ -34,6 +34,15 @@ def cases(ctx):
         yield "lhs", {"seed": ctx.subseed("l", i), "maxN": ctx.pick(200, 2000), "hostile": i % 3 == 0}
     for i in range(ctx.pick(240, 24000)):
         yield "halton", {"seed": ctx.subseed("h", i), "maxN": ctx.pick(200, 2000)}
+    # digit-count boundaries of the radical inverse: N = p^k - 1, p^k, p^k + 1 for the j-th prime p with at least j parameters
+    pr = oracles.primes(ctx.pick(8, 12))
+    for j, pb in enumerate(pr, start=1):
+        k = 1
+        while pb ** k <= ctx.pick(16000, 250000):
+            for N in (pb ** k - 1, pb ** k, pb ** k + 1):
+                if N >= 1:
+                    yield "halton_power", {"n": j + (k % 2), "N": N, "base_index": j, "seed": ctx.subseed("hp", j, k, N)}
+            k += 1
     for i in range(ctx.pick(300, 30000)):
         yield "uniform", {"seed": ctx.subseed("u", i)}
     for i in range(ctx.pick(400, 36000)):
@@ -127,6 +136,35 @@ def run_case(ctx, name, params):
             ctx.nontrivial(("halton", n, N, tuple(map(tuple, bxs))))
         ctx.count("cases")
         ctx.sample({"generator": "halton", "n": n, "N": N, "bounds": bxs[:2], "first": [list(map(float, v)) for v in vecs[:2]]}, "halton")
+    elif name == "halton_power":
+        n, N = params["n"], params["N"]
+        bxs = gen.boxes(r, n, fam)
+        g = operators.HaltonGenerator(params_for(bxs))
+        g.init(N)
+        wit = lambda: {"n": n, "N": N, "bounds": bxs, "note": "N next to a power of the %d-th prime" % params["base_index"]}
+        try:
+            vecs = g.generate()
+        except Exception as e:
+            ctx.violation("halton/exception", "HaltonGenerator.generate raised %r" % e, wit())
+            return
+        if len(vecs) != N:
+            ctx.violation("halton/count", "returned %d points for N=%d" % (len(vecs), N), wit())
+            return
+        pr = oracles.primes(n)
+        idx = sorted({1, max(1, N - 2), max(1, N - 1), N} | {r.randint(1, N) for _ in range(40)})
+        for i in idx:
+            v = vecs[i - 1]
+            for j, (lb, ub) in enumerate(bxs):
+                exp = lb + float(oracles.radical_inverse(i, pr[j])) * (ub - lb)
+                tol = 1e-12 * abs(ub - lb) + slack(lb, ub)
+                ctx.count("halton_coordinates_checked")
+                if abs(float(v[j]) - exp) > tol:
+                    ctx.violation("halton/radical_inverse", "point %d coordinate %d is %r, radical inverse of %d in base %d scaled to the "
+                                  "bounds is %r" % (i, j, float(v[j]), i, pr[j], exp), wit())
+                    return
+        ctx.count("halton_power_boundary_designs")
+        ctx.nontrivial(("hp", n, N))
+        ctx.count("cases")
     elif name == "uniform":
         n = r.randint(1, 6)
         k = r.randint(2, 7)
